@@ -331,4 +331,205 @@ theorem pieceText_lines (eol : UInt8) (p : Bytes) (ps : List Bytes) (lo hi : Nat
     rw [List.drop_succ_cons, List.drop_succ_cons, ← List.map_drop, ← List.map_take]
     exact aux _
 
+/-! ## what a positive bound selects among `n` lines -/
+
+/-- `b` (positive indexes) selects lines `lo … hi` among `n`: the facts the walk needs -/
+structure Sel (b : UserBounds) (n lo hi : Nat) : Prop where
+  lo_pos : 1 ≤ lo
+  lo_le : lo ≤ hi
+  hi_le : hi ≤ n
+  left : leftOf b = (lo : Int)
+  right : b.r = .some (hi : Int) ∨ (b.r = .cont ∧ hi = n)
+  matches_iff : ∀ k : Nat, 1 ≤ k →
+    ((b.matches (k : Int)).getD false = true ↔ lo ≤ k ∧ (k ≤ hi ∨ b.r = .cont))
+
+theorem Sel.of_resolve {b : UserBounds} {n lo hi : Nat} (hp : b.Pos)
+    (h : resolve b n = some (lo, hi)) : Sel b n lo hi := by
+  obtain ⟨l, r, il, fb⟩ := b
+  obtain ⟨hpl, hpr⟩ := hp
+  simp only at hpl hpr
+  unfold resolve at h
+  simp only at h
+  cases l with
+  | cont =>
+    cases r with
+    | cont =>
+      simp only [resolveSide] at h
+      by_cases hc : 1 ≤ n ∧ 1 ≤ 1
+      · rw [if_pos hc] at h
+        simp only [Option.some.injEq, Prod.mk.injEq] at h
+        obtain ⟨rfl, rfl⟩ := h
+        refine ⟨by omega, by omega, by omega, rfl, Or.inr ⟨rfl, rfl⟩, ?_⟩
+        intro k hk
+        simp [UserBounds.matches]; omega
+      · rw [if_neg hc] at h; cases h
+    | some v =>
+      have hv : 0 < v := hpr
+      simp only [resolveSide] at h
+      by_cases hoob : v = 0 ∨ v > (n : Int) ∨ v < -(n : Int)
+      · rw [if_pos hoob] at h; cases h
+      · rw [if_neg hoob, if_pos hv] at h
+        simp only at h
+        by_cases hc : 1 ≤ v.toNat ∧ 1 ≤ 1
+        · rw [if_pos hc] at h
+          simp only [Option.some.injEq, Prod.mk.injEq] at h
+          obtain ⟨rfl, rfl⟩ := h
+          refine ⟨by omega, by omega, by omega, rfl, Or.inl (by simp; omega), ?_⟩
+          intro k hk
+          have : oppSign v (k : Int) = false := by simp [oppSign]; omega
+          simp [UserBounds.matches, this]; omega
+        · rw [if_neg hc] at h; cases h
+  | some u =>
+    have hu : 0 < u := hpl
+    cases r with
+    | cont =>
+      simp only [resolveSide] at h
+      by_cases hoob : u = 0 ∨ u > (n : Int) ∨ u < -(n : Int)
+      · rw [if_pos hoob] at h; cases h
+      · rw [if_neg hoob, if_pos hu] at h
+        simp only at h
+        by_cases hc : u.toNat ≤ n ∧ 1 ≤ u.toNat
+        · rw [if_pos hc] at h
+          simp only [Option.some.injEq, Prod.mk.injEq] at h
+          obtain ⟨rfl, rfl⟩ := h
+          refine ⟨by omega, by omega, by omega, by simp [leftOf]; omega, Or.inr ⟨rfl, rfl⟩, ?_⟩
+          intro k hk
+          have : oppSign u (k : Int) = false := by simp [oppSign]; omega
+          simp [UserBounds.matches, this]
+        · rw [if_neg hc] at h; cases h
+    | some v =>
+      have hv : 0 < v := hpr
+      simp only [resolveSide] at h
+      by_cases hoobu : u = 0 ∨ u > (n : Int) ∨ u < -(n : Int)
+      · rw [if_pos hoobu] at h; cases h
+      · rw [if_neg hoobu, if_pos hu] at h
+        by_cases hoob : v = 0 ∨ v > (n : Int) ∨ v < -(n : Int)
+        · rw [if_pos hoob] at h; cases h
+        · rw [if_neg hoob, if_pos hv] at h
+          simp only at h
+          by_cases hc : u.toNat ≤ v.toNat ∧ 1 ≤ u.toNat
+          · rw [if_pos hc] at h
+            simp only [Option.some.injEq, Prod.mk.injEq] at h
+            obtain ⟨rfl, rfl⟩ := h
+            refine ⟨by omega, by omega, by omega, by simp [leftOf]; omega,
+              Or.inl (by simp; omega), ?_⟩
+            intro k hk
+            have h1 : oppSign u (k : Int) = false := by simp [oppSign]; omega
+            have h2 : oppSign v (k : Int) = false := by simp [oppSign]; omega
+            simp [UserBounds.matches, h1, h2]; omega
+          · rw [if_neg hc] at h; cases h
+
+/-! ## the specification of `-l` on a plain resolvable request, in closed form -/
+
+/-- the lines a bound selects, separated by the EOL (byte for byte) -/
+def selText (eol : UInt8) (ls : List Bytes) (b : UserBounds) : Bytes :=
+  match resolve b ls.length with
+  | some (lo, hi) => joinText eol (slice ls (lo - 1) hi)
+  | none => []
+
+/-- what separates a bound from the next one: the EOL, or nothing under `--no-join` -/
+def joinerOf (eol : UInt8) (join : Bool) (t : List UserBounds) : Bytes :=
+  if join && !t.isEmpty then [eol] else []
+
+/-- the selected lines in request order -/
+def linesOut (eol : UInt8) (join : Bool) (ls : List Bytes) : List UserBounds → Bytes
+  | [] => []
+  | b :: t => selText eol ls b ++ joinerOf eol join t ++ linesOut eol join ls t
+
+theorem resolve_some_bounds {b : UserBounds} {n lo hi : Nat} (h : resolve b n = some (lo, hi)) :
+    1 ≤ lo ∧ lo ≤ hi := by
+  unfold resolve at h
+  cases hl : resolveSide b.l n 1 with
+  | none => simp [hl] at h
+  | some lo' =>
+    cases hr : resolveSide b.r n n with
+    | none => simp [hl, hr] at h
+    | some hi' =>
+      simp only [hl, hr] at h
+      by_cases hc : lo' ≤ hi' ∧ 1 ≤ lo'
+      · rw [if_pos hc] at h
+        simp only [Option.some.injEq, Prod.mk.injEq] at h
+        omega
+      · rw [if_neg hc] at h; cases h
+
+/-- a resolvable bound has no index 0 -/
+theorem nonzero_of_resolve {b : UserBounds} {n : Nat} (h : resolve b n ≠ none) : b.Nonzero := by
+  unfold resolve at h
+  constructor
+  · cases hl : b.l with
+    | cont => trivial
+    | some v =>
+      show v ≠ 0
+      intro hv
+      subst hv
+      simp [hl, resolveSide] at h
+  · cases hr : b.r with
+    | cont => trivial
+    | some v =>
+      show v ≠ 0
+      intro hv
+      subst hv
+      cases hl : resolveSide b.l n 1 with
+      | none => simp [hl] at h
+      | some lo => simp [hr, resolveSide] at h
+
+theorem countBounds_map_bound (t : List UserBounds) : countBounds (t.map .bound) = t.length := by
+  induction t with
+  | nil => rfl
+  | cons b t ih => simp [countBounds, ih]
+
+/-- the specification's `emit` over the lines, when every bound resolves -/
+theorem emit_lines (cfg : Cfg) (hj : cfg.json = false) (eol : UInt8) (p : Bytes) (ps : List Bytes)
+    (bs : List UserBounds) (hres : ∀ b ∈ bs, resolve b (p :: ps).length ≠ none) :
+    emit cfg ⟨p, ps.map fun x => (1, x)⟩ (fun k => repeatBytes [eol] k) [eol] (bs.map .bound)
+      = Run.ok (linesOut eol cfg.join (p :: ps) bs) := by
+  induction bs with
+  | nil => rfl
+  | cons b t ih =>
+    have hn : (Tok.mk p (ps.map fun x => ((1 : Nat), x))).numFields = (p :: ps).length := by
+      simp [Tok.numFields]
+    have iht := ih (fun b' hb' => hres b' (List.mem_cons_of_mem _ hb'))
+    rw [List.map_cons]
+    simp only [emit]
+    rw [hn, iht]
+    cases hr : resolve b (p :: ps).length with
+    | none => exact absurd hr (hres b (by simp))
+    | some lh =>
+      obtain ⟨lo, hi⟩ := lh
+      obtain ⟨h1, h2⟩ := resolve_some_bounds hr
+      simp only [hj, Bool.false_eq_true, if_false]
+      rw [pieceText_lines eol p ps lo hi h1 h2, countBounds_map_bound]
+      have hjo : (if (cfg.join && decide (t.length > 0)) = true then [eol] else [])
+          = joinerOf eol cfg.join t := by
+        unfold joinerOf
+        cases t <;> simp
+      rw [hjo]
+      simp only [linesOut, selText, hr, Run.pre, Run.ok, List.append_assoc]
+
+/-- **the specification of `-l` in closed form**: on an input other than the empty one or a lone
+    EOL, and a plain request every bound of which resolves, the output is the selected lines in
+    request order followed by one EOL, and the status is success. -/
+theorem specLines_eq_linesOut (cfg : Cfg) (input : Bytes) (bs : List UserBounds)
+    (hb : cfg.bofs = bs.map .bound) (hc : cfg.complement = false)
+    (h0 : input ≠ []) (h1 : input ≠ [cfg.eol])
+    (hres : ∀ b ∈ bs, resolve b (records cfg.eol input).length ≠ none) :
+    specLines cfg input
+      = Run.ok (linesOut cfg.eol cfg.join (records cfg.eol input) bs ++ [cfg.eol]) := by
+  unfold specLines
+  cases hrec : records cfg.eol input with
+  | nil => exact absurd ((records_eq_nil_iff _ _).1 hrec) h0
+  | cons p ps =>
+    rw [hrec] at hres
+    simp only [tokOfParts]
+    have hne : ((ps.map fun x => ((1 : Nat), x)).isEmpty && p.isEmpty) = false := by
+      cases ps with
+      | cons _ _ => simp
+      | nil =>
+        cases p with
+        | cons _ _ => simp
+        | nil => exact absurd ((records_eq_lone_iff _ _).1 hrec) h1
+    simp only [hne, hc, Bool.false_eq_true, if_false, Bool.false_and, hb]
+    rw [emit_lines _ rfl cfg.eol p ps bs hres]
+    simp [Run.seq, Run.ok]
+
 end Tuc
